@@ -1,7 +1,7 @@
 SPECIFICATION Spec
 CONSTANTS
   MaxLen = 8
-  MaxPool = 8
+  MaxPool = 9
   Emit = TRUE
 INVARIANT ContentKept
 INVARIANT EmitState
